@@ -20,7 +20,9 @@ RULE = ("hand-written catalogue (label boundary at depth, longest rule / inserti
         "and the qname matcher; sets of sets built with coremain.NewTestMosdnsWithPlugins (own rules + referenced sets, two referenced sets, "
         "nested and shared references, a dropped own matcher) consumed through GetDomainMatcher().Match and through qname '$tag'; full/domain "
         "pairs covering the same name with different values in every insertion order through MixMatcher, hosts and redirect (entries / file / "
-        "both); case-sensitive rule text (regexps A and ^\\D, type prefixes FULL: / Domain:) through every loader) "
+        "both); case-sensitive rule text (regexps A and ^\\D, type prefixes FULL: / Domain:) through every loader; "
+        "rule texts with a line of 65534 / 65535 / 65536 / 65537 / 70000 bytes (a comment, a line carrying a rule, a last line without end "
+        "of line) between ordinary rules through every loader, and a reader failing after k bytes for the raw loader) "
         "followed by seeded random rule sets over the label alphabet {a, b, ab} plus boundary labels (z, zz, az, m, y, a@, a`, a[, a{) "
         "(depth <= 5, all four types, default type, duplicates with other case / dot / value, nested suffixes; case flips per letter, "
         "independently, mostly a single letter and preferably a boundary letter) x names derived from the rules (itself, subdomain, glued "
@@ -29,7 +31,9 @@ RULE = ("hand-written catalogue (label boundary at depth, longest rule / inserti
         "qname.QuickSetup -> base_domain.NewMatcher (exps + &file), plugin hosts.NewHosts + Response and redirect.NewRedirect + Exec, "
         "half of the provider cases with rule sets of one type only; random compositions of 2..6 domain_set plugins referencing earlier ones "
         "(0..3 references each, nesting, members optionally marked with a label of their own) with one query name derived from every reachable "
-        "member, consumed via GetDomainMatcher, qname '$tag' and qname 'exps $tag'; full/domain counterpart rules with other values; plus a separate malformed stream (empty labels, '..', bad type "
+        "member, consumed via GetDomainMatcher, qname '$tag' and qname 'exps $tag'; full/domain counterpart rules with other values; random texts with one line around bufio's 64 KiB token limit "
+        "(up to 128 KiB) followed by more rules, queried with names of the rule after the long line, and random read faults at or inside "
+        "line boundaries: the oracle demands 'the load fails, or every rule of the text is in the set'; plus a separate malformed stream (empty labels, '..', bad type "
         "names, no default). A case is non-trivial when for some query at least two rules describe the name or a domain rule is a string "
         "suffix of the name without being a label suffix; distinct = distinct Gallina literal")
 ASSUMPTIONS = [
@@ -39,6 +43,9 @@ ASSUMPTIONS = [
     "names with empty labels are outside the property; the model still reproduces what the code does on them (checked by Judge.C12.agree), "
     "the property's own oracle (spec) is applied only to rule sets and names without empty labels",
     "IP address syntax (hosts) and YAML decoding of plugin arguments are outside the model",
+    "bufio.Scanner with its default buffer gives up (ErrTooLong) exactly on a line of >= 65536 bytes before its newline, and after a read "
+    "error hands out what it has read before reporting the error: modelled by Model.Domain.scan_lines / Judge CLoadX and checked at the "
+    "boundary by the differential run",
     "a set whose only rules are root-domain rules ('domain:' / '.') has Len() == 0 and is dropped by domain_set / base_domain: the model "
     "reproduces this (Judge.C12.loaded_view); such patterns have an empty label and are outside the property's oracle",
 ]
@@ -56,7 +63,9 @@ LEVEL_TEXT = ("Theorems in coq/Properties/C12.v, for all rule lists, all default
               "index-level reverse scanner (c12_scanner_general, no fuel exhaustion), first-colon split and default type, the text loader, and "
               "Len() > 0 for every set with one accepted rule of any type other than the root domain, so domain_set / base_domain keep it "
               "(c12_nonempty_set_is_kept); a set assembled from members matches iff some rule of some member describes the name "
-              "(c12_group_iff, c12_set_of_sets). "
+              "(c12_group_iff, c12_set_of_sets); a text load either reports an error or has loaded every rule line of the whole text "
+              "(c12_loader_complete, with the scanner's 64 KiB line limit modelled: c12_loader_lines, c12_scanner_delivers_all, "
+              "c12_scanner_short_text). "
               "The same model functions are run inside Coq on every observation of the real matchers, loaders and plugin constructors.")
 LEVEL_NOTE = ("Trusted: Coq kernel + vm_compute; hand-written model tied to the code by the differential run; Go's regexp as an arbitrary "
               "function; ASCII input. Keyword and regexp matchers iterate over Go maps, so with several matching rules of that type the "
